@@ -86,4 +86,196 @@ theorem leg_opreg_formOk (ctx : Spec.X86.Ctx) (rule : Rule) (p : Parsed) (bytes 
   simp [hop, hreg, hs, hpp8, ha67, allOk]
   exact ⟨hw, by simpa using c66, by simpa using cF3, by simpa using cF2, cF0, c9B, by omega, by simpa using ccont⟩
 
+/-- legacy shape [register in the opcode byte, imm] (`B8+r iw|id|iq`): the immediate's own conditions are a hypothesis -/
+theorem leg_opreg_imm_formOk (ctx : Spec.X86.Ctx) (rule : Rule) (p : Parsed) (bytes : List (BitVec 8)) (pp : Nat)
+    (k : RegKind) (f0 f3 : FormOp) (id : Nat) (v : BitVec 64)
+    (hmode : ((if ctx.mode64 then rule.modes &&& 2 else rule.modes &&& 1) != 0) = true)
+    (hs : rule.space = 0) (hpp8 : rule.pp &&& 8 = 0)
+    (h66 : (rule.pp &&& 1 != 0 || rule.osz == 16) = (pp == 1)) (hF3 : (rule.pp &&& 2 != 0) = (pp == 2)) (hF2 : (rule.pp &&& 4 != 0) = (pp == 3))
+    (hpplt : pp < 4) (hri : rule.ri = true) (ha67 : rule.a67 = false)
+    (hk : PlainKind k) (hf0 : f0.role = .opc)
+    (hic : allOk (opConds ctx rule p 0 f3 (.imm v)).1 = true)
+    (hal : alignOps rule.oszEff rule.ops [.reg k id, .imm v] = some [(f0, some (.reg k id)), (f3, some (.imm v))])
+    (hparse : parse ctx.mode64 rule bytes = .ok p)
+    (hvk : p.vexKind = 0) (hpfx : p.prefixes = ppBytes pp) (hmodrm : p.modrm = Option.none) (hop : (p.opcode &&& 0xF8#8).toNat = rule.opcode)
+    (hw : wWant rule = 2 ∨ p.W = (wWant rule == 1))
+    (hreg : regNum false p.B (bits p.opcode 0 3) = id) :
+    formOk ctx rule [.reg k id, .imm v] {} bytes = true := by
+  obtain ⟨c66, cF3, cF2, cF0, c9B, c67, cseg, ccont⟩ := count_ppBytes pp hpplt
+  have hleg : isLegacySpace rule = true := by simp [isLegacySpace, hs]
+  have h2 : (opConds ctx rule p 0 f0 (.reg k id)).2 = 0 := by simp [opConds, hf0]
+  simp only [formOk, conds, hal, hparse, hmode]
+  simp only [operandConds, h2]
+  generalize opConds ctx rule p 0 f3 (.imm v) = X at hic ⊢
+  simp only [allOk_cons, allOk_append, decorConds, headConds, prefixConds, modrmConds, operandConds, opConds, tailConds, hf0,
+    regConds_plain _ _ _ _ _ hk, allOk_nil, memOperandOf, implMemOf, usesVvvv, memDestOf, hic,
+    hasBcst, hleg, hri, hmodrm, hpfx, hvk, c66, cF3, cF2, cF0, c9B, c67, cseg, ccont, h66, hF3, hF2, List.foldl, List.find?]
+  simp [hop, hreg, hs, hpp8, ha67, allOk]
+  exact ⟨hw, by simpa using c66, by simpa using cF3, by simpa using cF2, cF0, c9B, by omega, by simpa using ccont⟩
+
+/-- legacy shape [rm, imm] with an opcode-extension digit (`/d ib|iw|id`), arbitrary register kind, ANY immediate width / signedness: the
+immediate's own conditions of the monitor are a hypothesis (`hic`) -/
+theorem leg_rm_imm_formOkG (ctx : Spec.X86.Ctx) (rule : Rule) (p : Parsed) (mb : BitVec 8) (bytes : List (BitVec 8)) (pp d nimm : Nat)
+    (ka : RegKind) (fa f3 : FormOp) (ia : Nat) (v : BitVec 64)
+    (hmode : ((if ctx.mode64 then rule.modes &&& 2 else rule.modes &&& 1) != 0) = true)
+    (R : LegRuleD rule nimm pp d) (hd : d < 8) (hdig : bits mb 3 3 = d)
+    (hra : fa.role = .rm)
+    (hic : allOk (opConds ctx rule p 0 f3 (.imm v)).1 = true)
+    (hreg : regOkB ka ia (regNum false p.B (bits mb 0 3)) p = true)
+    (hal : alignOps rule.oszEff rule.ops [.reg ka ia, .imm v] = some [(fa, some (.reg ka ia)), (f3, some (.imm v))])
+    (hparse : parse ctx.mode64 rule bytes = .ok p) (P : LegParsed rule p mb pp) :
+    formOk ctx rule [.reg ka ia, .imm v] {} bytes = true := by
+  obtain ⟨hvk, hpfx, hmodrm, hmod, hop, hw, hR'⟩ := P
+  obtain ⟨hmodes, hs, hpp8, h66, hF3, hF2, hpplt, hri, hmk, hmr, hmrm, himm, hrel, hmoff, ha67, hrev⟩ := R
+  obtain ⟨c66, cF3, cF2, cF0, c9B, c67, cseg, ccont⟩ := count_ppBytes pp hpplt
+  have hleg : isLegacySpace rule = true := by simp [isLegacySpace, hs]
+  have h2 : (opConds ctx rule p 0 fa (.reg ka ia)).2 = 0 := by simp [opConds, hra, hmodrm]
+  simp only [formOk, conds, hal, hparse, hmode]
+  simp only [operandConds, h2]
+  generalize opConds ctx rule p 0 f3 (.imm v) = X at hic ⊢
+  simp only [allOk_cons, allOk_append, decorConds, headConds, prefixConds, modrmConds, opConds, tailConds, hra,
+    allOk_regConds, allOk_nil, memOperandOf, implMemOf, usesVvvv, memDestOf, hic,
+    hasBcst, hleg, hri, hmodrm, hpfx, hvk, c66, cF3, cF2, cF0, c9B, c67, cseg, ccont, h66, hF3, hF2, hR']
+  simp [hop, hreg, hmod, hmr, hmrm, hs, hpp8, ha67, allOk, hdig]
+  exact ⟨⟨hw, by simpa using c66, by simpa using cF3, by simpa using cF2, cF0, c9B, by omega, by simpa using ccont⟩,
+    by rcases hmk with h | h <;> omega⟩
+
+/-- legacy shape [rm] (one register operand; `/r` with a free reg field, or a digit), arbitrary register kind -/
+theorem leg_r_formOkG (ctx : Spec.X86.Ctx) (rule : Rule) (p : Parsed) (mb : BitVec 8) (bytes : List (BitVec 8)) (pp d : Nat)
+    (ka : RegKind) (fa : FormOp) (ia : Nat)
+    (hmode : ((if ctx.mode64 then rule.modes &&& 2 else rule.modes &&& 1) != 0) = true)
+    (R : LegRuleD rule 0 pp d) (hdig : d < 8 → bits mb 3 3 = d)
+    (hra : fa.role = .rm)
+    (hreg : regOkB ka ia (regNum false p.B (bits mb 0 3)) p = true)
+    (hal : alignOps rule.oszEff rule.ops [.reg ka ia] = some [(fa, some (.reg ka ia))])
+    (hparse : parse ctx.mode64 rule bytes = .ok p) (P : LegParsed rule p mb pp) :
+    formOk ctx rule [.reg ka ia] {} bytes = true := by
+  obtain ⟨hvk, hpfx, hmodrm, hmod, hop, hw, hR'⟩ := P
+  obtain ⟨hmodes, hs, hpp8, h66, hF3, hF2, hpplt, hri, hmk, hmr, hmrm, himm, hrel, hmoff, ha67, hrev⟩ := R
+  obtain ⟨c66, cF3, cF2, cF0, c9B, c67, cseg, ccont⟩ := count_ppBytes pp hpplt
+  have hleg : isLegacySpace rule = true := by simp [isLegacySpace, hs]
+  have h2 : (opConds ctx rule p 0 fa (.reg ka ia)).2 = 0 := by simp [opConds, hra, hmodrm]
+  simp only [formOk, conds, hal, hparse, hmode]
+  simp only [operandConds, h2]
+  simp only [allOk_cons, allOk_append, decorConds, headConds, prefixConds, modrmConds, opConds, tailConds, hra,
+    allOk_regConds, allOk_nil, memOperandOf, implMemOf, usesVvvv, memDestOf,
+    hasBcst, hleg, hri, hmodrm, hpfx, hvk, c66, cF3, cF2, cF0, c9B, c67, cseg, ccont, h66, hF3, hF2, hR']
+  simp [hop, hreg, hmod, hmr, hmrm, hs, hpp8, ha67, allOk]
+  and_intros
+  all_goals first
+    | exact hw
+    | exact cF0
+    | exact c9B
+    | (rcases hmk with h | h <;> omega)
+    | (intro hh; exact hdig hh)
+    | (intro hh; have := hdig hh; omega)
+    | omega
+    | (simpa using c66)
+    | (simpa using cF3)
+    | (simpa using cF2)
+    | (simpa using ccont)
+    | simp_all
+
+/-- the same with a register as the second operand (fixed `cl` of the shifts: role none) -/
+theorem leg_rm_fixreg_formOkG (ctx : Spec.X86.Ctx) (rule : Rule) (p : Parsed) (mb : BitVec 8) (bytes : List (BitVec 8)) (pp d nimm : Nat)
+    (ka : RegKind) (fa f3 : FormOp) (ia : Nat) (k1 : RegKind) (i1 : Nat)
+    (hmode : ((if ctx.mode64 then rule.modes &&& 2 else rule.modes &&& 1) != 0) = true)
+    (R : LegRuleD rule nimm pp d) (hd : d < 8) (hdig : bits mb 3 3 = d)
+    (hra : fa.role = .rm)
+    (hic : allOk (opConds ctx rule p 0 f3 (.reg k1 i1)).1 = true)
+    (hreg : regOkB ka ia (regNum false p.B (bits mb 0 3)) p = true)
+    (hal : alignOps rule.oszEff rule.ops [.reg ka ia, .reg k1 i1] = some [(fa, some (.reg ka ia)), (f3, some (.reg k1 i1))])
+    (hparse : parse ctx.mode64 rule bytes = .ok p) (P : LegParsed rule p mb pp) :
+    formOk ctx rule [.reg ka ia, .reg k1 i1] {} bytes = true := by
+  obtain ⟨hvk, hpfx, hmodrm, hmod, hop, hw, hR'⟩ := P
+  obtain ⟨hmodes, hs, hpp8, h66, hF3, hF2, hpplt, hri, hmk, hmr, hmrm, himm, hrel, hmoff, ha67, hrev⟩ := R
+  obtain ⟨c66, cF3, cF2, cF0, c9B, c67, cseg, ccont⟩ := count_ppBytes pp hpplt
+  have hleg : isLegacySpace rule = true := by simp [isLegacySpace, hs]
+  have h2 : (opConds ctx rule p 0 fa (.reg ka ia)).2 = 0 := by simp [opConds, hra, hmodrm]
+  simp only [formOk, conds, hal, hparse, hmode]
+  simp only [operandConds, h2]
+  generalize opConds ctx rule p 0 f3 (.reg k1 i1) = X at hic ⊢
+  simp only [allOk_cons, allOk_append, decorConds, headConds, prefixConds, modrmConds, opConds, tailConds, hra,
+    allOk_regConds, allOk_nil, memOperandOf, implMemOf, usesVvvv, memDestOf, hic,
+    hasBcst, hleg, hri, hmodrm, hpfx, hvk, c66, cF3, cF2, cF0, c9B, c67, cseg, ccont, h66, hF3, hF2, hR']
+  simp [hop, hreg, hmod, hmr, hmrm, hs, hpp8, ha67, allOk, hdig]
+  exact ⟨⟨hw, by simpa using c66, by simpa using cF3, by simpa using cF2, cF0, c9B, by omega, by simpa using ccont⟩,
+    by rcases hmk with h | h <;> omega⟩
+
+/-- legacy shape [rm, x] with an opcode-extension digit, arbitrary register kind, second operand an immediate (any width / implied `1`) or a
+register (fixed `cl`): the second operand's own conditions of the monitor are a hypothesis (`hic`) -/
+theorem leg_rm_any_formOkG (ctx : Spec.X86.Ctx) (rule : Rule) (p : Parsed) (mb : BitVec 8) (bytes : List (BitVec 8)) (pp d nimm : Nat)
+    (ka : RegKind) (fa f3 : FormOp) (ia : Nat) (o1 : Operand)
+    (ho1 : (∃ v, o1 = .imm v) ∨ (∃ k i, o1 = .reg k i))
+    (hmode : ((if ctx.mode64 then rule.modes &&& 2 else rule.modes &&& 1) != 0) = true)
+    (R : LegRuleD rule nimm pp d) (hd : d < 8) (hdig : bits mb 3 3 = d)
+    (hra : fa.role = .rm)
+    (hic : allOk (opConds ctx rule p 0 f3 o1).1 = true)
+    (hreg : regOkB ka ia (regNum false p.B (bits mb 0 3)) p = true)
+    (hal : alignOps rule.oszEff rule.ops [.reg ka ia, o1] = some [(fa, some (.reg ka ia)), (f3, some o1)])
+    (hparse : parse ctx.mode64 rule bytes = .ok p) (P : LegParsed rule p mb pp) :
+    formOk ctx rule [.reg ka ia, o1] {} bytes = true := by
+  rcases ho1 with ⟨v, rfl⟩ | ⟨k, i, rfl⟩
+  · exact leg_rm_imm_formOkG ctx rule p mb bytes pp d nimm ka fa f3 ia v hmode R hd hdig hra hic hreg hal hparse P
+  · exact leg_rm_fixreg_formOkG ctx rule p mb bytes pp d nimm ka fa f3 ia k i hmode R hd hdig hra hic hreg hal hparse P
+
+/-- legacy form without ModRM, with immediate bytes: [66|F3|F2]? [REX]? escape opcode (64-bit mode) -/
+theorem parse_legacy_op_imm (r : Rule) (pp : Nat) (rex : Option (BitVec 8)) (o : BitVec 8) (imm : List (BitVec 8))
+    (hpp : pp < 4) (hs : r.space = 0) (hfw : r.pp &&& 8 = 0) (hmap : r.map < 4) (hmk : r.modKind = 0)
+    (hrex : ∀ b, rex = some b → b.toNat / 16 = 4 ∧ isLegacyPrefix b false = false)
+    (ho : r.map = 0 → isLegacyPrefix o false = false ∧ (rex = none → o.toNat / 16 ≠ 4))
+    (hlen : imm.length = r.immBytes + r.relBytes) (hmoff : r.moff = false) :
+    parse true r (ppBytes pp ++ rex.toList ++ legacyEscape r.map ++ o :: imm) =
+      .ok { prefixes := ppBytes pp, rex := rex, W := rexBit rex 3, R := rexBit rex 2, X := rexBit rex 1, B := rexBit rex 0,
+            map := r.map, opcode := o, imm := imm,
+            length := (ppBytes pp).length + rex.toList.length + (legacyEscape r.map).length + 1 + imm.length } := by
+  have hpp' : pp = 0 ∨ pp = 1 ∨ pp = 2 ∨ pp = 3 := by omega
+  have hmap' : r.map = 0 ∨ r.map = 1 ∨ r.map = 2 ∨ r.map = 3 := by omega
+  cases rex with
+  | none =>
+    rcases hmap' with m | m | m | m
+    · obtain ⟨ho1, ho2⟩ := ho m
+      have ho2' := ho2 rfl
+      rcases hpp' with h | h | h | h <;> subst h <;>
+        (simp [parse, takePrefixes, isLP_66, isLP_F3, isLP_F2, isLP_0F, rexBit, ppBytes, legacyEscape, bind, Except.bind, pure, Except.pure, m, hs, hfw, hmk,
+          hlen, hmoff, ho1, ho2'] <;> try omega)
+    all_goals
+      rcases hpp' with h | h | h | h <;> subst h <;>
+        (simp [parse, takePrefixes, isLP_66, isLP_F3, isLP_F2, isLP_0F, rexBit, ppBytes, legacyEscape, bind, Except.bind, pure, Except.pure, m, hs, hfw, hmk,
+          hlen, hmoff] <;> try omega)
+  | some b =>
+    obtain ⟨hb1, hb2⟩ := hrex b rfl
+    rcases hmap' with m | m | m | m
+    all_goals
+      rcases hpp' with h | h | h | h <;> subst h <;>
+        (simp [parse, takePrefixes, isLP_66, isLP_F3, isLP_F2, isLP_0F, rexBit, ppBytes, legacyEscape, bind, Except.bind, pure, Except.pure, m, hs, hfw, hmk,
+          hlen, hmoff, hb1, hb2] <;> try omega)
+
+/-- legacy form without ModRM: a fixed register (accumulator) operand that is not encoded, and an immediate of any width -/
+theorem leg_acc_imm_formOk (ctx : Spec.X86.Ctx) (rule : Rule) (p : Parsed) (bytes : List (BitVec 8)) (pp : Nat)
+    (k : RegKind) (f0 f3 : FormOp) (id : Nat) (v : BitVec 64)
+    (hmode : ((if ctx.mode64 then rule.modes &&& 2 else rule.modes &&& 1) != 0) = true)
+    (hs : rule.space = 0) (hpp8 : rule.pp &&& 8 = 0)
+    (h66 : (rule.pp &&& 1 != 0 || rule.osz == 16) = (pp == 1)) (hF3 : (rule.pp &&& 2 != 0) = (pp == 2)) (hF2 : (rule.pp &&& 4 != 0) = (pp == 3))
+    (hpplt : pp < 4) (hri : rule.ri = false) (ha67 : rule.a67 = false)
+    (hf0 : f0.role = .none)
+    (hic : allOk (opConds ctx rule p 0 f3 (.imm v)).1 = true)
+    (hal : alignOps rule.oszEff rule.ops [.reg k id, .imm v] = some [(f0, some (.reg k id)), (f3, some (.imm v))])
+    (hparse : parse ctx.mode64 rule bytes = .ok p)
+    (hvk : p.vexKind = 0) (hpfx : p.prefixes = ppBytes pp) (hmodrm : p.modrm = Option.none) (hop : p.opcode.toNat = rule.opcode)
+    (hw : wWant rule = 2 ∨ p.W = (wWant rule == 1)) :
+    formOk ctx rule [.reg k id, .imm v] {} bytes = true := by
+  obtain ⟨c66, cF3, cF2, cF0, c9B, c67, cseg, ccont⟩ := count_ppBytes pp hpplt
+  have hleg : isLegacySpace rule = true := by simp [isLegacySpace, hs]
+  have h2 : (opConds ctx rule p 0 f0 (.reg k id)).2 = 0 := by simp [opConds, hf0]
+  have h1 : (opConds ctx rule p 0 f0 (.reg k id)).1 = [] := by simp [opConds, hf0]
+  simp only [formOk, conds, hal, hparse, hmode]
+  simp only [operandConds, h2, h1]
+  generalize opConds ctx rule p 0 f3 (.imm v) = X at hic ⊢
+  simp only [allOk_cons, allOk_append, decorConds, headConds, prefixConds, modrmConds, tailConds, hf0,
+    allOk_nil, memOperandOf, implMemOf, usesVvvv, memDestOf, hic,
+    hasBcst, hleg, hri, hmodrm, hpfx, hvk, c66, cF3, cF2, cF0, c9B, c67, cseg, ccont, h66, hF3, hF2, List.foldl, List.find?, List.nil_append]
+  simp [hop, hs, hpp8, ha67, allOk]
+  exact ⟨hw, by simpa using c66, by simpa using cF3, by simpa using cF2, cF0, c9B, by omega, by simpa using ccont⟩
+
 end AsmjitVerif.Lemmas.X86Parse
